@@ -67,6 +67,16 @@ func (sc *subscriptionCancellations) CancelAll() {
 	}
 }
 
+// CancelAndRemoveAll cancels every subscription and forgets all of them.
+func (sc *subscriptionCancellations) CancelAndRemoveAll() {
+	sc.mu.Lock()
+	defer sc.mu.Unlock()
+	for id, cancelFunc := range sc.cancellations {
+		cancelFunc()
+		delete(sc.cancellations, id)
+	}
+}
+
 func (sc *subscriptionCancellations) Len() int {
 	sc.mu.RLock()
 	defer sc.mu.RUnlock()
